@@ -125,7 +125,7 @@ func (e *Engine) checkProperty(verif, prop, tier string, t0 time.Time) int {
 	} else {
 		var keep []string
 		for _, n := range names {
-			if _, ok := e.funcs[n]; !ok {
+			if _, ok := e.funcs[n]; !ok && !strings.HasPrefix(n, "bv:") {
 				missing = append(missing, n)
 				continue
 			}
